@@ -24,6 +24,11 @@ pub struct C20Case {
     /// keep only this many rows of the geometry table (None = all)
     pub geometry_rows: Option<usize>,
     pub with_tree: bool,
+    /// true: an edge's geometry starts at its source vertex's point and ends at its destination
+    /// vertex's point (consecutive edges share the junction point, a self loop of two points is a
+    /// repeated point), as real road geometries do; false: every point is unique to its edge
+    #[serde(default)]
+    pub shared_junctions: bool,
 }
 
 pub struct C20;
@@ -36,17 +41,25 @@ const FORMATS: [(&str, TraversalOutputFormat); 5] = [
     ("wkb", TraversalOutputFormat::Wkb),
 ];
 
-/// coordinates encode edge id and point index, so order and provenance are readable
-fn geometry(edge: usize, n_points: u8) -> Vec<(f32, f32)> {
-    (0..n_points.clamp(2, 6) as usize)
+/// coordinates encode edge id and point index, so order and provenance are readable;
+/// `ends` = (source vertex, destination vertex) puts the end points on the vertices' own points
+fn geometry(edge: usize, n_points: u8, ends: Option<(usize, usize)>) -> Vec<(f32, f32)> {
+    let n = n_points.clamp(2, 6) as usize;
+    let mut pts: Vec<(f32, f32)> = (0..n)
         .map(|i| (-100.0 + edge as f32 + i as f32 * 0.0625, 30.0 + i as f32 * 0.125 + edge as f32 * 0.001953125))
-        .collect()
+        .collect();
+    if let Some((s, d)) = ends {
+        let vp = |v: usize| (-120.0 + v as f32 * 0.03125, 10.0 + v as f32 * 0.0625);
+        pts[0] = vp(s);
+        pts[n - 1] = vp(d);
+    }
+    pts
 }
 
-fn geometry_file_text(m: usize, points: &[u8], rows: Option<usize>) -> String {
+fn geometry_file_text(m: usize, points: &[u8], rows: Option<usize>, ends: &dyn Fn(usize) -> Option<(usize, usize)>) -> String {
     let mut s = String::new();
     for e in 0..rows.unwrap_or(m).min(m) {
-        let pts = geometry(e, points.get(e).copied().unwrap_or(2));
+        let pts = geometry(e, points.get(e).copied().unwrap_or(2), ends(e));
         let body: Vec<String> = pts.iter().map(|(x, y)| format!("{} {}", x, y)).collect();
         s.push_str(&format!("LINESTRING ({})\n", body.join(", ")));
     }
@@ -222,9 +235,10 @@ impl Prop for C20 {
                     proptest::collection::vec(2u8..=6, m),
                     proptest::option::weighted(0.25, 0usize..=m),
                     any::<bool>(),
+                    any::<bool>(),
                 )
             })
-            .prop_map(|(mut search, points, geometry_rows, with_tree)| {
+            .prop_map(|(mut search, points, geometry_rows, with_tree, shared_junctions)| {
                 search.edge_oriented = false;
                 search.reverse = false;
                 let n = search.spec.net.n();
@@ -242,6 +256,7 @@ impl Prop for C20 {
                     points,
                     geometry_rows,
                     with_tree,
+                    shared_junctions,
                 }
             })
             .boxed()
@@ -267,7 +282,15 @@ impl Prop for C20 {
         }
         let dir = CaseDir::new();
         let gpath = dir.file("geometries.txt");
-        let text = geometry_file_text(m, &case.points, case.geometry_rows);
+        let ends = |e: usize| -> Option<(usize, usize)> {
+            if case.shared_junctions {
+                sc.spec.net.edges.get(e).map(|(s, d, _)| (*s, *d))
+            } else {
+                None
+            }
+        };
+        o.label_if(case.shared_junctions, "geometries-share-junction-points");
+        let text = geometry_file_text(m, &case.points, case.geometry_rows, &ends);
         if write_text(&gpath, &text, false).is_err() {
             return o;
         }
@@ -309,12 +332,12 @@ impl Prop for C20 {
         ));
         let expected_coords = |ids: &Vec<usize>| -> Vec<(f64, f64)> {
             ids.iter()
-                .flat_map(|e| geometry(*e, case.points.get(*e).copied().unwrap_or(2)))
+                .flat_map(|e| geometry(*e, case.points.get(*e).copied().unwrap_or(2), ends(*e)))
                 .map(|(x, y)| (x as f64, y as f64))
                 .collect()
         };
         let edge_coords = |e: usize| -> Vec<(f64, f64)> {
-            geometry(e, case.points.get(e).copied().unwrap_or(2))
+            geometry(e, case.points.get(e).copied().unwrap_or(2), ends(e))
                 .into_iter()
                 .map(|(x, y)| (x as f64, y as f64))
                 .collect()
